@@ -36,7 +36,7 @@ INNER = {"opts": {"exit_on_error": False}, "args": [{"k": "arg", "name": "q", "t
 
 DEEP = {"opts": {"exit_on_error": False}, "args": [{"k": "arg", "name": "r", "type": "int", "default": 0}, {"k": "arg", "name": "w", "type": "list_float", "default": [1.5]}]}
 INNER_DEEP = {"opts": INNER["opts"], "args": INNER["args"] + [{"k": "inner", "name": "deep", "spec": DEEP}]}
-FEATS = ["inner1", "inner2", "dct", "obj", "p", "pr", "x", "req", "dg", "jn", "js", "deep"]
+FEATS = ["inner1", "inner2", "dct", "obj", "p", "pr", "x", "req", "dg", "jn", "js", "deep", "lk"]
 
 
 def parser_spec(feats):
@@ -58,6 +58,8 @@ def parser_spec(feats):
         args.append({"k": "arg", "name": "obj", "type": "opt_base", "default": None, "enable_path": True})
     if "dg" in feats:
         args.append({"k": "class", "cls": "D", "name": "dg"})
+    if "dg" in feats and "lk" in feats:
+        args.append({"k": "link", "src": "a", "dst": "dg.u"})
     if "jn" in feats:
         args.append({"k": "jsonnet", "name": "jn"})
     if "js" in feats:
@@ -80,7 +82,7 @@ def generate(rng, tier):
         main["p"] = "$W/data/pa.txt"
     if "x" in feats and rng.random() < 0.5:
         main["x"] = rng.choice([{"k": [1, 2]}, "txt", 7, [1, {"z": 2}]])
-    if "dg" in feats and rng.random() < 0.5:
+    if "dg" in feats and "lk" not in feats and rng.random() < 0.5:
         main["dg"] = {"u": rng.randint(2, 9)}
     for n, ext in (("inner1", "yaml"), ("inner2", "json")):
         if n in feats:
@@ -149,7 +151,7 @@ def generate(rng, tier):
             choices.append({"key": "dct", "value": {"p": "bad"}})
         if "obj" in feats:
             choices.append({"key": "obj.init_args.n", "value": "bad"})
-        if "dg" in feats:
+        if "dg" in feats and "lk" not in feats:
             choices.append({"key": "dg.u", "value": "bad"})
         if "js" in feats:
             choices.append({"key": "js", "value": {"k": "bad"}})
